@@ -92,8 +92,36 @@ type outcome struct {
 	lost    int // DA requests of this history that got no answer
 }
 
-func body(t *testing.T, c *explore.Ctx, depth int, sh sharder) (out outcome) {
-	synctest.Test(t, func(t *testing.T) { out = bubble(c, depth, sh) })
+// spec bounds one part of the exploration. lostBlocks = 0: part 1 (every request is answered). lostBlocks = k > 0:
+// part 1b — every history contains between 1 and k DA blocks whose requests get no answer; their positions among the
+// depth steps and their kinds are configuration choices made up front (so that every such history is enumerated
+// exactly once and none without a lost request is repeated), the other steps are chosen freely from the alphabet of part 1.
+type spec struct {
+	depth      int
+	lostBlocks int
+}
+
+// lostPlacements lists the non-empty sets of at most k step indices out of 1..depth-1, in a fixed order. Step 0 is
+// left out: before the first production step nothing is committed, so no request is sent that could be lost.
+func lostPlacements(depth, k int) (out [][]int) {
+	var rec func(from int, cur []int)
+	rec = func(from int, cur []int) {
+		if len(cur) > 0 {
+			out = append(out, append([]int(nil), cur...))
+		}
+		if len(cur) == k {
+			return
+		}
+		for p := from; p < depth; p++ {
+			rec(p+1, append(cur, p))
+		}
+	}
+	rec(1, nil)
+	return
+}
+
+func body(t *testing.T, c *explore.Ctx, sp spec, sh sharder) (out outcome) {
+	synctest.Test(t, func(t *testing.T) { out = bubble(c, sp, sh) })
 	return
 }
 
@@ -135,12 +163,20 @@ const (
 	restartClean = 2 // the loops are cancelled and run to their end (whatever they do on the way out takes effect), then the process ends
 )
 
-func bubble(c *explore.Ctx, depth int, sh sharder) (out outcome) {
+func bubble(c *explore.Ctx, sp spec, sh sharder) (out outcome) {
 	t0 := time.Now()
+	depth := sp.depth
 	limit := uint64(1 + c.Choose("config", 3))
 	initial := uint64(1)
 	if c.Choose("config", 2) == 1 {
 		initial = 3
+	}
+	lostAt := map[int]int{} // step -> kind of the lost-request DA block forced there (part 1b)
+	if sp.lostBlocks > 0 {
+		pl := lostPlacements(depth, sp.lostBlocks)
+		for _, pos := range pl[c.Choose("config", len(pl))] {
+			lostAt[pos] = 1 + c.Choose("config", 3)
+		}
 	}
 	p := world.Params{InitialHeight: initial, MaxPending: limit, DABlockTime: daBlock, MempoolTTL: 2, GenesisTime: t0.Add(-time.Hour)}
 	env := world.NewEnv()
@@ -350,6 +386,11 @@ func bubble(c *explore.Ctx, depth int, sh sharder) (out outcome) {
 			}
 			out.early = false
 		}
+		if lost := lostAt[step]; lost != 0 {
+			out.events = append(out.events, "DA-block("+[]string{"", "header", "data", "header and data"}[lost]+" requests get no answer)")
+			tick(false, lost)
+			continue
+		}
 		if k := c.Choose("restart", 3); k != 0 {
 			out.events = append(out.events, map[int]string{restartCrash: "crash+restart", restartClean: "clean-stop+restart"}[k])
 			if f := restart(k); f != nil {
@@ -367,19 +408,8 @@ func bubble(c *explore.Ctx, depth int, sh sharder) (out outcome) {
 			}
 		} else {
 			o := c.Choose("outage", 2) == 1
-			lost := 0
-			if !o {
-				lost = c.Choose("lost", 4)
-			}
-			switch {
-			case o:
-				out.events = append(out.events, "DA-block(outage)")
-			case lost != 0:
-				out.events = append(out.events, "DA-block("+[]string{"", "header", "data", "header and data"}[lost]+" requests get no answer)")
-			default:
-				out.events = append(out.events, "DA-block(accepting)")
-			}
-			tick(o, lost)
+			out.events = append(out.events, map[bool]string{true: "DA-block(outage)", false: "DA-block(accepting)"}[o])
+			tick(o, 0)
 		}
 	}
 	// the DA accepts; after both loops ran (two DA blocks, which also covers the longest back-off) production resumes.
@@ -424,28 +454,46 @@ func TestCheck(t *testing.T) {
 	maxRestarts := vf.Pick(r, 2, 2)
 	lazyBlocks := vf.Pick(r, 6, 8)
 	lazyRestarts := vf.Pick(r, 1, 2)
-	maxLost := vf.Pick(r, 1, 2)
-	lazyLost := vf.Pick(r, 1, 2)
-	budgets := map[string]int{"outage": 3, "restart": maxRestarts, "lost": maxLost}
+	budgets := map[string]int{"outage": 3, "restart": maxRestarts}
+	// part 1b: histories with 1..lostSpec.lostBlocks DA blocks whose requests get no answer
+	lostSpec := spec{depth: vf.Pick(r, 5, 6), lostBlocks: vf.Pick(r, 1, 2)}
+	lostBudgets := map[string]int{"outage": vf.Pick(r, 1, 1), "restart": vf.Pick(r, 1, 1)}
+	lazyLost := lazySpec{blocks: lazyBlocks, lostBlocks: vf.Pick(r, 1, 2)}
+	lazyLostRestarts := vf.Pick(r, 0, 1)
 	r.Assume = []string{
 		"virtual time; DA block time 1 s; a DA outage rejects every Submit during one DA block with a generic error",
 		"'genuinely still waiting' is read in the weakest way: committed blocks whose header, or non-empty data, has not been acknowledged by the DA layer, counted once per block",
 		"'resumes as soon as accepted': checked after three accepting DA blocks in which nothing is left unacknowledged",
 		fmt.Sprintf("DA outages have two forms: a DA block in which every Submit is ANSWERED with a generic error, and a DA block in which the header submissions, the data submissions or both get NO ANSWER at all (neither success nor error: the DA double logs the request, stores nothing, and the call returns only when its context is done, with the context's error); the unanswered calls stay open when that DA block is over, every later request is answered 'accepted'. The node cannot tell a lost request from a slow one before it gives the call up, so after a history with a lost request the closing phase is %d accepting DA blocks longer (the code under test abandons an attempt after 60 s; 'never stops permanently' is checked as 'production has resumed after %d+3 DA blocks in which the DA layer accepted every submission it was sent'). The declines-only-while-waiting oracle stays armed all the time: blocks whose request got no answer are genuinely unacknowledged", lostHorizon, lostHorizon),
 		"node restarts: between any two actions the process may end — crash (from that instant no call of the old process reaches the store, the DA layer, the executor or the sequencer) or clean stop (the loops are cancelled and run to their end first) — and a NEW Manager is constructed over the key/value image the old process left behind, with the same DA layer, executor and sequencing layer; the submission loops are started again and the harness keeps acting between two DA blocks. The oracle is the same before and after a restart (the ground truth is the DA double's acknowledgement log and the chain in the image, both of which outlive the process). Restarts happen at action boundaries only: no crash in the middle of a store write or of a DA call (after such a crash the node cannot know about an acceptance, so counting the block as waiting is not a violation; C04/C06/C07 explore those instants). The on-disk cache files are not part of this world (root directory absent); the pending counts do not use them. A node that cannot be constructed over its own image is reported (clause startup)",
-		"part 2: lazy mode (block interval 1 s, idle interval 2 s), idle chain (only empty batches), real AggregationLoop and submission loops under the cooperative scheduler in canonical order; every outage pattern (per DA block: accepting / answered with an error / requests get no answer, the last at most 1/2 times) over 6/8 DA blocks, limits 1-2, with up to 1/2 restarts (crash or clean stop; new Manager and new loops over the image left behind) at any DA-block boundary including the one before the closing phase; after the DA accepted everything for 4 DA blocks (4+"+fmt.Sprint(lostHorizon)+" after a lost request) a block must appear within two idle intervals and a block interval",
+		"part 2: lazy mode (block interval 1 s, idle interval 2 s), idle chain (only empty batches), real AggregationLoop and submission loops under the cooperative scheduler in canonical order; every outage pattern over 6/8 DA blocks, limits 1-2, with up to 1/2 restarts (crash or clean stop; new Manager and new loops over the image left behind) at any DA-block boundary including the one before the closing phase; after the DA accepted everything for 4 DA blocks a block must appear within two idle intervals and a block interval. Part 2b: 1/1-2 of the DA blocks give no answer to the requests sent during them (on an idle chain: header submissions), every other DA block accepting or down, up to 0/1 restarts; closing phase 4+"+fmt.Sprint(lostHorizon)+" accepting DA blocks",
 		"the exploration is dealt out to 16 processes by a hash of the first half of each history (each process walks the prefix tree, exactly one continues below a prefix); evaluations counts complete histories only, each once",
 	}
-	run := func(c *explore.Ctx) outcome { return body(t, c, depth, sh) }
+	run := func(c *explore.Ctx) outcome { return body(t, c, spec{depth: depth}, sh) }
 	if r.ReplayPath() != "" {
 		var ch []explore.Point
 		var lz struct {
 			Lazy    bool
+			Lost    bool
 			Choices []explore.Point
 		}
-		if _, err := r.LoadReplay(&lz); err == nil && lz.Lazy {
+		if _, err := r.LoadReplay(&lz); err == nil && lz.Lost && lz.Lazy {
 			explore.ReplayOne(lz.Choices, func(c *explore.Ctx) {
-				if o := lazyBody(t, c, lazyBlocks, sh); o.fail != nil {
+				if o := lazyBody(t, c, lazyLost, sh); o.fail != nil {
+					fmt.Println(o.fail.Msg, o.events)
+					r.Report(vf.Violation{Clause: o.fail.Clause, Tags: o.tags, Msg: o.fail.Msg, History: lz})
+				}
+			})
+		} else if err == nil && lz.Lost {
+			explore.ReplayOne(lz.Choices, func(c *explore.Ctx) {
+				if o := body(t, c, lostSpec, sh); o.fail != nil {
+					fmt.Println(o.fail.Msg, o.events)
+					r.Report(vf.Violation{Clause: o.fail.Clause, Tags: o.tags, Msg: o.fail.Msg, History: lz})
+				}
+			})
+		} else if err == nil && lz.Lazy {
+			explore.ReplayOne(lz.Choices, func(c *explore.Ctx) {
+				if o := lazyBody(t, c, lazySpec{blocks: lazyBlocks}, sh); o.fail != nil {
 					fmt.Println(o.fail.Msg, o.events)
 					r.Report(vf.Violation{Clause: o.fail.Clause, Tags: o.tags, Msg: o.fail.Msg, History: lz})
 				}
@@ -463,15 +511,15 @@ func TestCheck(t *testing.T) {
 		r.Finish(vf.Coverage{Evaluations: 1, DistinctNontrivial: 1})
 		return
 	}
-	var full, points atomic.Int64 // complete histories of this process (prefix stubs of other shards are not counted)
-	var lostRuns, lostReqs atomic.Int64 // histories in which at least one DA request got no answer / such requests
+	var full, lostFull, points atomic.Int64 // complete histories of this process (prefix stubs of other shards are not counted)
+	var lostRuns, lostReqs, lazyLostRuns atomic.Int64 // histories in which at least one DA request got no answer / such requests
 	var sampled [5]atomic.Int32
-	st := explore.Explore(explore.Config{Budgets: budgets, Deadline: vf.Pick(r, 240*time.Second, 25*time.Minute)}, func(c *explore.Ctx) {
-		o := run(c)
+	const sigKey = "signature(P=produced,d=declined,t=DA block,x=outage,h/a/b=DA block whose header/data/all requests get no answer,T=lostHorizon accepting DA blocks,K=crash+restart,R=clean stop+restart)"
+	handle := func(c *explore.Ctx, o outcome, count *atomic.Int64, history any) {
 		if o.skipped || (o.early && !sh.mine(c)) {
 			return
 		}
-		full.Add(1)
+		count.Add(1)
 		points.Add(int64(len(c.Choices())))
 		if o.lost > 0 {
 			lostRuns.Add(1)
@@ -479,7 +527,7 @@ func TestCheck(t *testing.T) {
 		}
 		restarted := strings.ContainsAny(o.sig, "KR")
 		if o.fail != nil {
-			r.Report(vf.Violation{Clause: o.fail.Clause, Tags: o.tags, Msg: fmt.Sprintf("%s\n events: %v", o.fail.Msg, o.events), Cost: len(o.events), History: c.Choices()})
+			r.Report(vf.Violation{Clause: o.fail.Clause, Tags: o.tags, Msg: fmt.Sprintf("%s\n events: %v", o.fail.Msg, o.events), Cost: len(o.events), History: history})
 			r.Outcome("fail:" + o.fail.Clause)
 			return
 		}
@@ -493,24 +541,41 @@ func TestCheck(t *testing.T) {
 				k = 3
 			}
 			if sampled[k].Add(1) == 1 {
-				r.Sample(map[string]any{"events": o.events, "requests_without_answer": o.lost, "signature(P=produced,d=declined,t=DA block,x=outage,h/a/b=DA block whose header/data/all requests get no answer,T=lostHorizon accepting DA blocks,K=crash+restart,R=clean stop+restart)": o.sig})
+				r.Sample(map[string]any{"events": o.events, "requests_without_answer": o.lost, sigKey: o.sig})
 			}
 		}
+	}
+	tStart := time.Now() // TEMP
+	st := explore.Explore(explore.Config{Budgets: budgets, Deadline: vf.Pick(r, 240*time.Second, 25*time.Minute)}, func(c *explore.Ctx) {
+		if os.Getenv("C08_ONLY_LOST") != "" { // TEMP
+			return
+		}
+		handle(c, run(c), &full, c.Choices())
 	})
 	for _, m := range st.Nondet {
 		r.EngineError("nondeterminism: " + m)
 	}
-	// part 2: lazy mode, idle chain, real AggregationLoop
-	var lazyFull atomic.Int64
-	st2 := explore.Explore(explore.Config{Budgets: map[string]int{"restart": lazyRestarts, "lost": lazyLost}, Deadline: vf.Pick(r, 120*time.Second, 10*time.Minute)}, func(c *explore.Ctx) {
-		o := lazyBody(t, c, lazyBlocks, sh)
+	tP1 := time.Since(tStart) // TEMP
+	tStart = time.Now()
+	// part 1b: lost requests
+	st1b := explore.Explore(explore.Config{Budgets: lostBudgets, Deadline: vf.Pick(r, 240*time.Second, 15*time.Minute)}, func(c *explore.Ctx) {
+		handle(c, body(t, c, lostSpec, sh), &lostFull, map[string]any{"Lost": true, "Choices": c.Choices()})
+	})
+	for _, m := range st1b.Nondet {
+		r.EngineError("nondeterminism (lost-request part): " + m)
+	}
+	tP1b := time.Since(tStart) // TEMP
+	tStart = time.Now()
+	// part 2: lazy mode, idle chain, real AggregationLoop; part 2b: the same with lost requests
+	var lazyFull, lazyLostFull atomic.Int64
+	handleLazy := func(c *explore.Ctx, o outcome, count *atomic.Int64, history any) {
 		if o.skipped || (o.early && !sh.mine(c)) {
 			return
 		}
-		lazyFull.Add(1)
+		count.Add(1)
 		points.Add(int64(len(c.Choices())))
 		if o.lost > 0 {
-			lostRuns.Add(1)
+			lazyLostRuns.Add(1)
 			lostReqs.Add(int64(o.lost))
 		}
 		if o.fail != nil {
@@ -518,7 +583,7 @@ func TestCheck(t *testing.T) {
 				r.EngineError(o.fail.Msg)
 				return
 			}
-			r.Report(vf.Violation{Clause: o.fail.Clause, Tags: o.tags, Msg: fmt.Sprintf("%s\n events: %v", o.fail.Msg, o.events), Cost: len(o.events), History: map[string]any{"Lazy": true, "Choices": c.Choices()}})
+			r.Report(vf.Violation{Clause: o.fail.Clause, Tags: o.tags, Msg: fmt.Sprintf("%s\n events: %v", o.fail.Msg, o.events), Cost: len(o.events), History: history})
 			r.Outcome("lazy:fail:" + o.fail.Clause)
 			return
 		}
@@ -529,10 +594,23 @@ func TestCheck(t *testing.T) {
 		if o.lost > 0 && sampled[4].Add(1) == 1 {
 			r.Sample(map[string]any{"part": "lazy idle chain", "requests_without_answer": o.lost, "result": o.sig})
 		}
+	}
+	st2 := explore.Explore(explore.Config{Budgets: map[string]int{"restart": lazyRestarts}, Deadline: vf.Pick(r, 120*time.Second, 10*time.Minute)}, func(c *explore.Ctx) {
+		if os.Getenv("C08_ONLY_LOST") != "" { // TEMP
+			return
+		}
+		handleLazy(c, lazyBody(t, c, lazySpec{blocks: lazyBlocks}, sh), &lazyFull, map[string]any{"Lazy": true, "Choices": c.Choices()})
 	})
 	for _, m := range st2.Nondet {
 		r.EngineError("nondeterminism (lazy part): " + m)
 	}
+	st2b := explore.Explore(explore.Config{Budgets: map[string]int{"restart": lazyLostRestarts}, Deadline: vf.Pick(r, 120*time.Second, 10*time.Minute)}, func(c *explore.Ctx) {
+		handleLazy(c, lazyBody(t, c, lazyLost, sh), &lazyLostFull, map[string]any{"Lazy": true, "Lost": true, "Choices": c.Choices()})
+	})
+	for _, m := range st2b.Nondet {
+		r.EngineError("nondeterminism (lazy lost-request part): " + m)
+	}
+	tP2 := time.Since(tStart) // TEMP
 	var caps []string
 	if st.Capped != "" {
 		caps = append(caps, st.Capped)
@@ -540,42 +618,60 @@ func TestCheck(t *testing.T) {
 	if st2.Capped != "" {
 		caps = append(caps, "lazy part: "+st2.Capped)
 	}
-	lostTotal, counted := sumOverShards(sh, [2]int64{lostRuns.Load(), lostReqs.Load()})
+	if st1b.Capped != "" {
+		caps = append(caps, "lost-request part: "+st1b.Capped)
+	}
+	if st2b.Capped != "" {
+		caps = append(caps, "lazy lost-request part: "+st2b.Capped)
+	}
+	if f, err := os.OpenFile("/tmp/r4/C08/timing.log", os.O_APPEND|os.O_CREATE|os.O_WRONLY, 0o644); err == nil { // TEMP
+		fmt.Fprintf(f, "shard %d: part1 %v part1b %v lazy %v\n", sh.i, tP1, tP1b, tP2)
+		f.Close()
+	}
+	tot, counted := sumOverShards(sh, []int64{full.Load(), lostFull.Load(), lazyFull.Load(), lostRuns.Load(), lazyLostRuns.Load(), lostReqs.Load(), lazyLostFull.Load()})
 	r.Finish(vf.Coverage{
-		Evaluations: full.Load() + lazyFull.Load(), DistinctNontrivial: int64(r.DistinctOutcomes()), States: int64(r.DistinctOutcomes()), Transitions: points.Load(),
-		Rule:       "every action sequence of the depth bound over {produce non-empty, produce empty, one DA block with accepting DA, one DA block of DA outage (every request answered with an error; at most max_outage_blocks), one DA block in which the header requests / the data requests / both get NO answer (the calls stay open, afterwards the DA layer accepts; at most max_lost_request_blocks), crash + restart, clean stop + restart (together at most max_restarts; a restart = a NEW Manager and new submission loops over the key/value image the old process left behind, same DA layer / executor / sequencing layer)} × limit {1,2,3} × initial height {1,3}, on the real production step and the real submission loops under virtual time, each followed by three accepting DA blocks (lost_request_horizon_da_blocks more after a lost request) and one production attempt; part 2 (lazy mode, idle chain, real AggregationLoop): every outage pattern (accepting / error / no answer, the last at most lazy_max_lost_request_blocks times) over lazy_da_blocks DA blocks × limit {1,2} × at most lazy_max_restarts restarts (crash or clean stop) at the DA-block boundaries; distinct = distinct produced/declined/restarted signatures",
+		Evaluations: full.Load() + lostFull.Load() + lazyFull.Load() + lazyLostFull.Load(), DistinctNontrivial: int64(r.DistinctOutcomes()), States: int64(r.DistinctOutcomes()), Transitions: points.Load(),
+		Rule: "part 1: every action sequence of the depth bound over {produce non-empty, produce empty, one DA block with accepting DA, one DA block of DA outage (every request answered with an error; at most max_outage_blocks), crash + restart, clean stop + restart (together at most max_restarts; a restart = a NEW Manager and new submission loops over the key/value image the old process left behind, same DA layer / executor / sequencing layer)} × limit {1,2,3} × initial height {1,3}, on the real production step and the real submission loops under virtual time, each followed by three accepting DA blocks and one production attempt; " +
+			"part 1b (lost requests): every action sequence of lost_part.depth steps over the same alphabet (bounds lost_part.max_outage_blocks / max_restarts) in which 1..lost_part.max_lost_request_blocks steps — at any positions but the first, where nothing is committed yet — are DA blocks whose header submissions / data submissions / both get NO answer (the call stays open until the caller gives it up; afterwards the DA layer accepts), × limit {1,2,3} × initial height {1,3}, each followed by lost_request_horizon_da_blocks + 3 accepting DA blocks and one production attempt; " +
+			"part 2 (lazy mode, idle chain, real AggregationLoop): every outage pattern over lazy_da_blocks DA blocks × limit {1,2} × at most lazy_max_restarts restarts (crash or clean stop) at the DA-block boundaries; part 2b: the same in which 1..lazy_lost_part.max_lost_request_blocks of the DA blocks (any of them) are DA blocks whose requests get NO answer, the others accepting or down in every pattern, with at most lazy_lost_part.max_restarts restarts, closing phase lost_request_horizon_da_blocks DA blocks longer; distinct = distinct produced/declined/restarted signatures",
 		Exhaustive: true, Caps: caps,
 		Bounds: map[string]any{"depth": depth, "limits": []int{1, 2, 3}, "initial_heights": []int{1, 3}, "max_outage_blocks": 3, "max_restarts": maxRestarts, "restart_kinds": []string{"crash", "clean-stop"}, "lazy_da_blocks": lazyBlocks, "lazy_limits": []int{1, 2}, "lazy_max_restarts": lazyRestarts,
-			"max_lost_request_blocks": maxLost, "lost_request_kinds": []string{"header requests", "data requests", "both"}, "lazy_max_lost_request_blocks": lazyLost, "lost_request_horizon_da_blocks": lostHorizon,
-			"histories_with_unanswered_request": lostTotal[0], "unanswered_requests": lostTotal[1], "processes_counted_for_these_two": counted},
+			"lost_part": map[string]any{"depth": lostSpec.depth, "max_lost_request_blocks": lostSpec.lostBlocks, "lost_request_kinds": []string{"header requests", "data requests", "both"}, "placements_of_lost_blocks": len(lostPlacements(lostSpec.depth, lostSpec.lostBlocks)), "max_outage_blocks": lostBudgets["outage"], "max_restarts": lostBudgets["restart"]},
+			"lazy_lost_part": map[string]any{"da_blocks": lazyLost.blocks, "max_lost_request_blocks": lazyLost.lostBlocks, "placements_of_lost_blocks": len(lostPlacements(lazyLost.blocks+1, lazyLost.lostBlocks)), "max_restarts": lazyLostRestarts},
+			"lost_request_horizon_da_blocks": lostHorizon,
+			"measured_over_all_processes": map[string]any{"processes_counted": counted, "part1_histories": tot[0], "part1b_histories": tot[1], "part2_lazy_histories": tot[2],
+				"part2b_lazy_histories": tot[6],
+				"part1b_histories_in_which_a_request_got_no_answer": tot[3], "part2b_histories_in_which_a_request_got_no_answer": tot[4], "requests_that_got_no_answer": tot[5]}},
 	})
 }
 
 // sumOverShards adds up per-process counters over all shard processes: every shard publishes its numbers next to the
 // shard results; shard 0 (whose coverage record carries the bounds) waits for the others' files (bounded) and returns
 // the sums and the number of processes counted. Unsharded runs return their own numbers.
-func sumOverShards(sh sharder, mine [2]int64) (sum [2]int64, counted int) {
+func sumOverShards(sh sharder, mine []int64) (sum []int64, counted int) {
 	out := os.Getenv("VERIF_SHARD_OUT")
 	if out == "" || sh.n <= 1 {
 		return mine, 1
 	}
 	dir := filepath.Dir(out)
-	name := func(i int) string { return filepath.Join(dir, fmt.Sprintf("c08-lost-%d.stat", i)) }
+	name := func(i int) string { return filepath.Join(dir, fmt.Sprintf("c08-counts-%d.stat", i)) }
 	bz, _ := json.Marshal(mine)
 	tmp := name(sh.i) + ".tmp"
 	if err := os.WriteFile(tmp, bz, 0o600); err == nil {
 		_ = os.Rename(tmp, name(sh.i))
 	}
+	sum = make([]int64, len(mine))
 	if sh.i != 0 {
 		return mine, 1
 	}
 	limit := time.Now().Add(3 * time.Minute)
 	for i := 0; i < sh.n; i++ {
 		for {
-			var v [2]int64
-			if bz, err := os.ReadFile(name(i)); err == nil && json.Unmarshal(bz, &v) == nil {
-				sum[0] += v[0]
-				sum[1] += v[1]
+			var v []int64
+			if bz, err := os.ReadFile(name(i)); err == nil && json.Unmarshal(bz, &v) == nil && len(v) == len(mine) {
+				for k := range v {
+					sum[k] += v[k]
+				}
 				counted++
 				break
 			}
